@@ -65,7 +65,11 @@ type c33Case struct {
 	WComments []c33Comment `json:"wcomments,omitempty"` // writer-level WithUserComments
 	Tracks    []c33Track   `json:"tracks"`
 	Ops       []c33Op      `json:"ops"`
-	Note      string       `json:"note,omitempty"`
+	// Reuse: every packet is handed to WriteRTP out of ONE receive buffer
+	// (marshalled into it, rtp.Packet.Unmarshal makes Payload a sub-slice) and
+	// the whole buffer is overwritten as soon as WriteRTP has returned.
+	Reuse bool   `json:"reuse,omitempty"`
+	Note  string `json:"note,omitempty"`
 }
 
 func (o c33Op) payload() []byte {
@@ -165,9 +169,7 @@ type c33Written struct {
 
 func c33Write(c c33Case) c33Written {
 	var res c33Written
-	mkPkt := func(ssrc uint32, p []byte) *rtp.Packet {
-		return &rtp.Packet{Header: rtp.Header{Version: 2, SSRC: ssrc}, Payload: p}
-	}
+	feeder := &mfFeeder{reuse: c.Reuse} // mediafeed_util.go
 	status := func(err error) {
 		if err != nil {
 			res.statuses = append(res.statuses, 1)
@@ -190,7 +192,7 @@ func c33Write(c c33Case) c33Written {
 				return res
 			}
 			for _, op := range c.Ops {
-				status(w.WriteRTP(mkPkt(t.SSRC, op.payload())))
+				status(feeder.feed(w.WriteRTP, rtp.Header{Version: 2, SSRC: t.SSRC}, op.payload()))
 			}
 			if err := w.Close(); err != nil {
 				res.err = "close: " + err.Error()
@@ -205,7 +207,7 @@ func c33Write(c c33Case) c33Written {
 			return res
 		}
 		for _, op := range c.Ops {
-			status(w.WriteRTP(mkPkt(t.SSRC, op.payload())))
+			status(feeder.feed(w.WriteRTP, rtp.Header{Version: 2, SSRC: t.SSRC}, op.payload()))
 		}
 		if err := w.Close(); err != nil {
 			res.err = "close: " + err.Error()
@@ -255,7 +257,7 @@ func c33Write(c c33Case) c33Written {
 		tracks[i] = tr
 	}
 	for _, op := range c.Ops {
-		status(tracks[op.Track].WriteRTP(mkPkt(c.Tracks[op.Track].SSRC, op.payload())))
+		status(feeder.feed(tracks[op.Track].WriteRTP, rtp.Header{Version: 2, SSRC: c.Tracks[op.Track].SSRC}, op.payload()))
 	}
 	if err := w.Close(); err != nil {
 		res.err = "close: " + err.Error()
@@ -569,6 +571,13 @@ func c33Variant(c c33Case) string {
 	return a + "-" + b
 }
 
+func c33Feed(c c33Case) string {
+	if c.Reuse {
+		return "reused-buffer"
+	}
+	return "fresh-payloads"
+}
+
 func c33Run(c c33Case) (V, Verdict) {
 	w := c33Write(c)
 	if w.err != "" {
@@ -788,7 +797,7 @@ func c33Run(c c33Case) (V, Verdict) {
 	if bigPkt {
 		size = "multipage"
 	}
-	v := Pass(fmt.Sprintf("%s/tracks%d/%s/pkts%s", variant, len(tracks), size, c32Bucket33(accepted)),
+	v := Pass(fmt.Sprintf("%s/%s/tracks%d/%s/pkts%s", variant, c33Feed(c), len(tracks), size, c32Bucket33(accepted)),
 		accepted >= 1 && (len(tracks) >= 2 || bigPkt || accepted >= 3))
 	return obs, v
 }
@@ -1034,6 +1043,10 @@ func c33GenVariant(r *Rand, i int, multi, seekable bool) c33Case {
 		c.Tracks[0].VGenLen, c.Tracks[0].VSeed = Pick(r, []int{255*255 - 16, 255*255 - 15, 66000}), byte(r.Range(1, 25))
 		c.Note = "multi-page comment header"
 	}
+	// packet feeding: a rewritable output makes Close rebuild each stream's last
+	// page from what the writer remembered, so every seekable case goes through
+	// the reused receive buffer; half of the others do as well
+	c.Reuse = seekable || r.Bool()
 	return c
 }
 
@@ -1068,6 +1081,19 @@ func c33Corpus() []c33Case {
 		{ID: 7, Multi: false, Seekable: false, Tracks: []c33Track{one}, Ops: []c33Op{{GenLen: 255, Toc: 0x78, Seed: 3}, {GenLen: 510, Toc: 0x78, Seed: 5}}},
 		{ID: 8, Multi: true, Seekable: true, Tracks: []c33Track{first}, Ops: []c33Op{{GenLen: 255 * 255, Toc: 0x78, Seed: 3}}},
 		{ID: 9, Multi: true, Seekable: false, Tracks: []c33Track{first, two}, Ops: []c33Op{{GenLen: 2 * 255 * 255, Toc: 0x78, Seed: 9}, pk(1, "7801")}},
+		// receive loop over one buffer (all tracks share it); the rewritable
+		// variants rebuild every stream's last page in Close, after the buffer has
+		// been overwritten / has served the other track
+		{ID: 10, Multi: false, Seekable: true, Reuse: true, Tracks: []c33Track{one}, Note: "receive-loop",
+			Ops: []c33Op{pk(0, "9810101010"), pk(0, "9811111111"), pk(0, "9812121212"), pk(0, "9813131313"), pk(0, "9814141414")}},
+		{ID: 11, Multi: true, Seekable: true, Reuse: true, Tracks: []c33Track{first, two}, Note: "receive-loop-two-tracks",
+			Ops: []c33Op{pk(0, "98202020"), pk(1, "98606060"), pk(0, "98212121"), pk(1, "98616161"), pk(0, "98222222"), pk(1, "98626262"), pk(0, "98232323")}},
+		{ID: 12, Multi: true, Seekable: true, Reuse: true, Tracks: []c33Track{first, two}, Note: "receive-loop-multipage-last-packet",
+			Ops: []c33Op{pk(1, "7801"), {GenLen: 255*255 + 300, Toc: 0x78, Seed: 7}, pk(1, "7802")}},
+		{ID: 13, Multi: false, Seekable: false, Reuse: true, Tracks: []c33Track{one}, Note: "receive-loop-plain",
+			Ops: []c33Op{pk(0, "9810101010"), pk(0, ""), pk(0, "9811111111")}},
+		{ID: 14, Multi: true, Seekable: false, Reuse: true, Tracks: []c33Track{first, two}, Note: "receive-loop-plain-two-tracks",
+			Ops: []c33Op{pk(0, "98202020"), pk(1, "98606060"), {Track: 1, GenLen: 600, Toc: 0x78, Seed: 11}, pk(0, "98212121")}},
 	}
 }
 
